@@ -80,6 +80,11 @@ def jobs(prop, tier):
             return [SE(c + "_edge", 2, rate=(0.1 if c == "sync_entry_pre" else 1.0)) for c in ent] + [SE("sync_sc_edge", 2, rate=0.05), SE("sync_3_edge", 3, rate=0.002)]
         return [SM(c) for c in ent] + [SE(c + "_edge", 2) for c in ent] + [SE("sync_sc_edge", 2, rate=0.5), SE("sync_3_edge", 3, rate=0.03),
                                                                          SE("sync_basic_edge", 2, rate=0.3)]
+    if prop == "C12":
+        tr = dict(mode="trace", cfg="sync_trace", module="OrdaSyncTrace.tla", tool="concdriver", kind="counter")
+        if q:
+            return [dict(tr, args=["-rounds", "60", "-seed", "{seed}"])]
+        return [dict(tr, args=["-rounds", "1500", "-seed", "{seed}"]), dict(tr, args=["-rounds", "1500", "-seed", "{seed}7"])]
     if prop == "C20":
         def G(cfg, kinds, rate=1.0):
             return dict(mode="edge", cfg=cfg, kind=kinds, n=2, rate=rate, tool="gatereplay", dump_module="OrdaTxLockDump.tla")
